@@ -85,8 +85,11 @@ Definition spec_C18 (c : c18case) (obs : list Z) : bool :=
   end.
 
 (* ---- known-finding classes (known_findings.d/C18.json) ----
-   1: a mutation stream in which the stream-end recompute was processed before some mutation that changes a key
-   3: a write that changes a key it does not mark (the C09 classes 1-3): no event can name that key *)
+   1: (repaired in /repo, a874354: never returned) a mutation stream whose stream-end recompute was
+      processed before some of its mutations
+   3: a write that changes a key it does not mark: no event can name that key.  The three write kinds
+      of C09 classes 1-3 were repaired (4510e5f, f14488a, 9c2e3ca) and now cover (proofs/C09P.v);
+      what remains reachable is C09 class 6 (a synchronised version under another entity) *)
 Definition nonempty {A} (l : list A) : bool := match l with [] => false | _ => true end.
 Definition unc_msg (acc : state * bool) (m : msg) : state * bool :=
   let '(s, u) := acc in
@@ -96,13 +99,10 @@ Definition unc_msg (acc : state * bool) (m : msg) : state * bool :=
   end.
 Definition unc_batch (acc : state * bool) (b : list msg) : state * bool :=
   let '(s, u) := acc in (fst (trace_batch (s, []) b), snd (fold_left unc_msg b (s, u))).
-(* a stream some of whose mutations were committed after (or in the batch of) the stream-end recompute *)
-Definition has_late (a : api) : bool := match a with AStream _ early => existsb negb early | _ => false end.
 Definition api_classes (acc : state * list Z) (a : api) : state * list Z :=
   let '(s, cl) := acc in
   let '(s', unc) := fold_left unc_batch (batches_of a) (s, false) in
-  (s', cl ++ (if has_late a then [1] else [])
-          ++ (if unc then [3] else [])).
+  (s', cl ++ (if unc then [3] else [])).
 Fixpoint zdedup18 (l : list Z) : list Z :=
   match l with [] => [] | x :: t => if existsb (Z.eqb x) t then zdedup18 t else x :: zdedup18 t end.
 Definition known_C18 (c : c18case) : list Z :=
